@@ -5,15 +5,9 @@ from ..common import dec_val
 
 MODULE = "Genql.Properties.C02"
 LEAN_TARGETS = [MODULE]
-THEOREMS = [
-    "Genql.C02.select_length",
-    "Genql.C02.select_keys",
-    "Genql.C02.select_values",
-    "Genql.C02.select_row_local",
-    "Genql.C02.select_plain",
-    "Genql.C02.missing_is_null",
-    "Genql.C02.binop_null",
-]
+THEOREMS = ["Genql.C02." + t for t in [
+    "select_length", "select_row_local", "select_rowwise", "select_keys", "evalSel_frame", "select_values",
+    "missing_is_null", "binop_null", "select_no_marker", "select_plain"]]
 TRUSTED = ["IEEE-754 arithmetic (Lean Float in the driver, opaque to the kernel)", "sqlparser (query text -> AST)"]
 RULE = ("random tables with nested objects, NULLs and missing keys x select lists of 1-6 items (columns, nested paths, "
         "aliases, duplicates, *, expression trees over all 11 binary and 3 unary operators, CASE with/without ELSE); "
